@@ -23,6 +23,7 @@ structure DState where
   vspec : SMap Spec.Versions.VBucket := []
   upl   : Upl := Upl.empty
   ucfg  : UploadCfg := {}
+  pend  : List (Nat × Bytes × Bytes × Meta) := []     -- uploads between their steps: tid ↦ (bucket, key, metadata as merged so far)
   mspec : List Spec.Multipart.Upload := []
 
 def optNat (o : Option Nat) : String := match o with | some n => toString n | none => "-"
@@ -425,6 +426,35 @@ def stepState0 (st : DState) (toks : List String) : Option (DState × Out × Str
       | .stored _ _ => (Spec.S3.step st.spec (.put (fromHex b) (fromHex k) (match Front.uploadChecks md5 st.ucfg (fromHex k) rq with | .ok bs => bs | _ => []))).1
       | _ => st.spec
     some ({ st with mem := m, spec := spec' }, o, showOut o, sp)
+  | ["cbegin", tid, b, k, md] =>
+    -- the handler up to the first unlocked point: ensureBucketExists, key length
+    (match Front.ensureBucket st.cfg st.mem (fromHex b) with
+     | (m, .ok _) =>
+       if (fromHex k).length > Front.KeySizeLimit then some ({ st with mem := m }, Out.err .KeyTooLong, "err KeyTooLongError", "-")
+       else
+         let p := (parseNat tid, fromHex b, fromHex k, parseMeta md)
+         some ({ st with mem := m, pend := st.pend.filter (fun q => !(q.1 == parseNat tid)) ++ [p] }, Out.ok, "gate", "-")
+     | (m, .err c) => some ({ st with mem := m }, Out.err c, s!"err {c.name}", "-")
+     | (m, .panic _) => some ({ st with mem := m }, Out.ok, "panic", "-"))
+  | ["cmerge", tid] =>
+    -- MergeMetadata: reads the current object's metadata (read lock), outside the write lock
+    (match st.pend.find? (fun q => q.1 == parseNat tid) with
+     | some (t, b, k, md) =>
+       let md' := st.mem.mergedMeta b k md
+       some ({ st with pend := st.pend.map (fun q => if q.1 == t then (t, b, k, md') else q) }, Out.ok, "gate", "-")
+     | none => some (st, Out.ok, "no-pending-upload", "-"))
+  | ["ccommit", tid, body] =>
+    (match st.pend.find? (fun q => q.1 == parseNat tid) with
+     | some (t, b, k, md') =>
+       let (m, r) := st.mem.putCommit md5 b k md' (fromHex body)
+       let st' := { st with mem := m, pend := st.pend.filter (fun q => !(q.1 == t)) }
+       -- reference model: the upload takes effect atomically at its commit step
+       let (st'', sp) := specStep st' (.put b k (fromHex body))
+       (match r with
+        | .ok vid => some (st'', Out.ok, s!"stored {toHex (md5 (fromHex body))} vid={optNat vid}", sp)
+        | .err c => some (st'', Out.err c, s!"err {c.name}", sp)
+        | .panic _ => some (st'', Out.ok, "panic", sp))
+     | none => some (st, Out.ok, "no-pending-upload", "-"))
   | ["vmode", v] => some ({ st with vmode := v == "1" }, Out.ok, "ok", "-")
   | _ => none
 
